@@ -778,6 +778,9 @@ func (e *tsEngine) analyze(f *ssa.Function) (*tsSummary, []tsFinding) {
 				src = nil // an error of the storage component is a storage failure, not a rejection of this request
 			}
 		}
+		if src != nil && e.cannotReject(t, src) {
+			src = nil // Element(k) where the count was just tested to be k+1
+		}
 		if src != nil {
 			for _, g := range p.Callees(src) {
 				if sg := e.sum[g]; sg != nil && sg.MayReject {
@@ -829,15 +832,19 @@ func (e *tsEngine) cannotReject(t *tsFunc, via *ssa.Call) bool {
 			continue
 		}
 		bo, ok := ifi.Cond.(*ssa.BinOp)
-		if !ok || bo.Op != token.EQL {
+		if !ok || (bo.Op != token.EQL && bo.Op != token.NEQ) {
 			continue
 		}
 		c, okc := constInt(bo.Y)
 		if !okc || c != k+1 {
 			continue
 		}
+		eqEdge := 0
+		if bo.Op == token.NEQ {
+			eqEdge = 1
+		}
 		if call, ok := canon(bo.X).(*ssa.Call); ok && calleeName(call) == "Count" && sameValue(callRecv(call), callRecv(via)) {
-			if edgeDominates(b, 0, via.Block()) {
+			if edgeDominates(b, eqEdge, via.Block()) {
 				return true
 			}
 		}
